@@ -67,8 +67,15 @@ def iE : Expr → List Item
   | .the t k [e] =>
     (match theTbl t with
      | some (_, tb, w) => [kwI "the", .sp, .tk (.id (nameOrUnknown tb k)), .sp, kwI "of", .sp, kwI w, .sp] ++ iE e
-     | none => [])
+     | none =>
+       match strThe t k with
+       | some (op, r) =>
+         if op = S "last" then [kwI "the", .sp, kwI "last", .sp, .tk (.id ((chunkTy r).getD [])), .sp, kwI "of", .sp] ++ iE e
+         else [kwI "the", .sp, kwI "number", .sp, kwI "of", .sp, .tk (.id ((chunkTy r).getD [] ++ ['s'])), .sp, kwI "of", .sp] ++ iE e
+       | none => [])
   | .oprop v o => [kwI "the", .sp, .tk (.id v), .sp, kwI "of", .sp] ++ iE o
+  | .chunk k a b d =>
+    [kwI k.tag, .sp] ++ (iE a ++ ((if isZero b then [] else [.sp, kwI "to", .sp] ++ iE b) ++ ([.sp, kwI "of", .sp] ++ iE d)))
   | _ => []
 def iArgs : List Expr → List Item
   | [] => []
@@ -119,6 +126,19 @@ theorem sys_idOk (k : Nat) (h : tblSys.any (fun x => x.1 == k) = true) : idOk (n
   have := List.all_eq_true.mp hall x hx
   rw [hk'] at this
   exact this
+
+theorem chunkTy_spec (r : Nat) (ty : Str) (h : chunkTy r = some ty) : ∃ c : ChunkKind, ChunkKind.ofRank r = some c ∧ ty = c.tag.toList := by
+  unfold chunkTy at h
+  cases hc : ChunkKind.ofRank r with
+  | none => rw [hc] at h; cases h
+  | some c => rw [hc] at h; simp only [Option.map_some, Option.some.injEq] at h; exact ⟨c, rfl, h.symm⟩
+
+/-- the shape of the items of `the number of <chunk>s of e` / `the last <chunk> of e` -/
+theorem iE_strThe (t : Tbl) (k : Nat) (e : Expr) (op : Str) (r : Nat) (ty : Str) (ht : theTbl t = none) (hst : strThe t k = some (op, r))
+    (hty : chunkTy r = some ty) :
+    iE (.the t k [e]) = (if op = S "last" then [kwI "the", .sp, kwI "last", .sp, .tk (.id ty), .sp, kwI "of", .sp] ++ iE e
+      else [kwI "the", .sp, kwI "number", .sp, kwI "of", .sp, .tk (.id (ty ++ ['s'])), .sp, kwI "of", .sp] ++ iE e) := by
+  simp only [iE, ht, hst, hty, Option.getD_some]
 
 theorem tbl_idOk (tb : List (Nat × String)) (hall : tb.all (fun x => idOk (nameOrUnknown tb x.1)) = true) (k : Nat)
     (h : tb.any (fun x => x.1 == k) = true) : idOk (nameOrUnknown tb k) = true := by
@@ -213,17 +233,27 @@ theorem render_iE : ∀ (e : Expr), FragE e = true → render (iE e) = mE e
       cases xs with
       | cons y ys => cases t <;> simp [FragE] at hf
       | nil =>
-        simp only [FragE, Bool.and_eq_true] at hf
-        have ih := render_iE x hf.2
-        cases t <;> simp [theTbl] at hf <;>
-          simp [iE, mE, theTbl, render_append, render_cons, ih, Item.text, kwI, S, render_nil]
+        have hfx : FragE x = true := by simp only [FragE, Bool.and_eq_true] at hf; exact hf.2
+        have ih := render_iE x hfx
+        rcases mE_the1 t k x hf with ⟨cls, tb, w, ht, _, _, hm⟩ | ⟨op, r, ty, ht, hst, hty, hm⟩
+        · rw [hm]
+          simp [iE, ht, render_append, render_cons, ih, Item.text, kwI, S, render_nil]
+        · rw [hm, iE_strThe t k x op r ty ht hst hty]
+          rcases strThe_op t k op r hst with rfl | rfl
+          · have hne : ¬ (S "number" = S "last") := by decide
+            simp [hne, render_append, render_cons, ih, Item.text, kwI, S, render_nil]
+          · simp [render_append, render_cons, ih, Item.text, kwI, S, render_nil]
     | nil => cases t <;> first | (simp [FragE] at hf; done) | (simp only [iE, mE]; exact render_the _)
   | .key v, _ => by simp only [iE, mE]; exact render_the _
   | .movie v, _ => by simp only [iE, mE]; exact render_the _
   | .oprop v o, hf => by
     simp only [FragE, Bool.and_eq_true] at hf
     simp [iE, mE, render_append, render_cons, render_iE o hf.2, Item.text, kwI, S, render_nil]
-  | .chunk _ _ _ _, hf => by simp [FragE] at hf
+  | .chunk k a b d, hf => by
+    simp only [FragE, Bool.and_eq_true, Bool.not_eq_true'] at hf
+    obtain ⟨⟨⟨⟨hfa, _⟩, hfb⟩, hfd⟩, _⟩ := hf
+    cases hz : isZero b <;>
+      simp [iE, mE, hz, render_append, render_cons, render_iE a hfa, render_iE b hfb, render_iE d hfd, Item.text, kwI, S, render_nil]
 theorem render_iArgs : ∀ (as : List Expr), FragL as = true → render (iArgs as) = mArgs as
   | [], _ => rfl
   | [e], hf => by
@@ -235,6 +265,12 @@ theorem render_iArgs : ∀ (as : List Expr), FragL as = true → render (iArgs a
     simp only [iArgs, render_append, render_cons, render_iE e hf.1, ih, mArgs]
     simp [Item.text, S, P.text]
 end
+
+theorem prE_chunk (c : ChunkKind) (a b d : Expr) :
+    prE (.chunk c a b d) = kw c.tag :: (prE a ++ ((if isZero b then [] else kw "to" :: prE b) ++ kw "of" :: prE d)) := by
+  cases b with
+  | int n => cases n <;> simp [prE, isZero]
+  | _ => simp [prE, isZero]
 
 mutual
 theorem itoks_iE : ∀ (e : Expr), FragE e = true → itoks (iE e) = prE e
@@ -275,10 +311,21 @@ theorem itoks_iE : ∀ (e : Expr), FragE e = true → itoks (iE e) = prE e
       cases xs with
       | cons y ys => cases t <;> simp [FragE] at hf
       | nil =>
-        simp only [FragE, Bool.and_eq_true] at hf
-        have ih := itoks_iE x hf.2
-        cases t <;> simp [theTbl] at hf <;>
-          simp [iE, theTbl, itoks, itoks_append, ih, prE, prThe, kwI, kw]
+        have hfx : FragE x = true := by simp only [FragE, Bool.and_eq_true] at hf; exact hf.2
+        have ih := itoks_iE x hfx
+        rcases mE_the1 t k x hf with ⟨cls, tb, w, ht, _, _, _⟩ | ⟨op, r, ty, ht, hst, hty, _⟩
+        · cases t <;> simp [theTbl] at ht <;>
+          · obtain ⟨_, rfl, rfl⟩ := ht
+            simp [iE, theTbl, itoks, itoks_append, ih, prE, prThe, kwI, kw]
+        · rw [iE_strThe t k x op r ty ht hst hty]
+          obtain ⟨c, hc, rfl⟩ := chunkTy_spec r ty hty
+          cases t <;> simp [strThe] at hst
+          · obtain ⟨hk, rfl, rfl⟩ := hst
+            simp [itoks, itoks_append, ih, prE, prThe, kwI, kw, hc]
+          · obtain ⟨rfl, rfl⟩ := hst
+            have hne : ¬ (S "number" = S "last") := by decide
+            have hpl : (chunkPlural c).toList = c.tag.toList ++ ['s'] := by cases c <;> rfl
+            simp [hne, itoks, itoks_append, ih, prE, prThe, kwI, kw, hc, hpl]
     | nil =>
       cases t with
       | sys => simp [iE, itoks, prE, prThe, kwI, kw]
@@ -291,7 +338,16 @@ theorem itoks_iE : ∀ (e : Expr), FragE e = true → itoks (iE e) = prE e
   | .oprop v o, hf => by
     simp only [FragE, Bool.and_eq_true] at hf
     simp [iE, itoks, itoks_append, itoks_iE o hf.2, prE, kwI, kw]
-  | .chunk _ _ _ _, hf => by simp [FragE] at hf
+  | .chunk k a b d, hf => by
+    simp only [FragE, Bool.and_eq_true, Bool.not_eq_true'] at hf
+    obtain ⟨⟨⟨⟨hfa, _⟩, hfb⟩, hfd⟩, _⟩ := hf
+    have iha := itoks_iE a hfa
+    have ihb := itoks_iE b hfb
+    have ihd := itoks_iE d hfd
+    rw [prE_chunk]
+    cases hz : isZero b <;>
+      simp only [iE, hz, Bool.false_eq_true, if_false, if_true, itoks_append, itoks, iha, ihb, ihd, kwI, kw, List.nil_append,
+        List.cons_append, List.append_assoc]
 theorem itoks_iArgs : ∀ (as : List Expr), FragL as = true → itoks (iArgs as) = prArgs as
   | [], _ => rfl
   | [e], hf => by
@@ -329,12 +385,12 @@ theorem mE_ne_nil : ∀ (e : Expr), FragE e = true → mE e ≠ []
     | cons x xs =>
       cases xs with
       | cons y ys => cases t <;> simp [FragE] at hf
-      | nil => cases t <;> first | (simp [FragE, theTbl] at hf; done) | simp [mE, theTbl, S]
+      | nil => obtain ⟨r, hr⟩ := mE_the_head t k [x] hf; rw [hr]; simp [S]
     | nil => cases t <;> first | (simp [FragE] at hf; done) | simp [mE, S]
   | .key _, _ => by simp [mE, S]
   | .movie _, _ => by simp [mE, S]
   | .oprop _ _, _ => by simp [mE, S]
-  | .chunk _ _ _ _, hf => by simp [FragE] at hf
+  | .chunk k _ _ _, _ => by cases k <;> simp [mE, ChunkKind.tag, S]
 
 
 mutual
@@ -438,19 +494,25 @@ theorem chain_iE : ∀ (e : Expr), FragE e = true → ∀ (rest : List Char), Sa
       cases xs with
       | cons y ys => cases t <;> simp [FragE] at hf
       | nil =>
-        simp only [FragE, Bool.and_eq_true] at hf
-        obtain ⟨⟨htk, _⟩, hfe⟩ := hf
-        cases ht : theTbl t with
-        | none => rw [ht] at htk; simp at htk
-        | some v =>
-          obtain ⟨cls, tb, w⟩ := v
-          rw [ht] at htk
-          simp only at htk
-          obtain ⟨h1, h2⟩ := obj_idOk t cls tb w ht k htk
-          have ih := chain_iE x hfe rest h
+        have hfe : FragE x = true := by simp only [FragE, Bool.and_eq_true] at hf; exact hf.2
+        have ih := chain_iE x hfe rest h
+        rcases mE_the1 t k x hf with ⟨cls, tb, w, ht, htk, _, _⟩ | ⟨op, r, ty, ht, hst, hty, _⟩
+        · obtain ⟨h1, h2⟩ := obj_idOk t cls tb w ht k htk
           simp only [iE, ht, List.cons_append, List.nil_append]
           rw [chain_cons_sp _ _ _ (by decide), chain_cons_sp _ _ _ (by simpa [ItemOk] using h1), chain_cons_sp _ _ _ (by decide),
             chain_cons_sp _ _ _ h2, ih]
+        · rw [iE_strThe t k x op r ty ht hst hty]
+          obtain ⟨c, hc, rfl⟩ := chunkTy_spec r ty hty
+          have hi1 : ItemOk (.tk (.id c.tag.toList)) = true := by cases c <;> decide
+          have hi2 : ItemOk (.tk (.id (c.tag.toList ++ ['s']))) = true := by cases c <;> decide
+          by_cases hop : op = S "last"
+          · rw [if_pos hop]
+            simp only [List.cons_append, List.nil_append]
+            rw [chain_cons_sp _ _ _ (by decide), chain_cons_sp _ _ _ (by decide), chain_cons_sp _ _ _ hi1, chain_cons_sp _ _ _ (by decide), ih]
+          · rw [if_neg hop]
+            simp only [List.cons_append, List.nil_append]
+            rw [chain_cons_sp _ _ _ (by decide), chain_cons_sp _ _ _ (by decide), chain_cons_sp _ _ _ (by decide), chain_cons_sp _ _ _ hi2,
+              chain_cons_sp _ _ _ (by decide), ih]
     | nil =>
       cases t with
       | sys => simp only [FragE] at hf; simp only [iE]; exact chain_the _ (sys_idOk k hf) rest h
@@ -463,7 +525,25 @@ theorem chain_iE : ∀ (e : Expr), FragE e = true → ∀ (rest : List Char), Sa
     have ih := chain_iE o hf.2 rest h
     simp only [iE, List.cons_append, List.nil_append]
     rw [chain_cons_sp _ _ _ (by decide), chain_cons_sp _ _ _ (by simpa [ItemOk] using hf.1.1), chain_cons_sp _ _ _ (by decide), ih]
-  | .chunk _ _ _ _, hf, _, _ => by simp [FragE] at hf
+  | .chunk k a b d, hf, rest, h => by
+    simp only [FragE, Bool.and_eq_true, Bool.not_eq_true'] at hf
+    obtain ⟨⟨⟨⟨hfa, _⟩, hfb⟩, hfd⟩, _⟩ := hf
+    have hk : ItemOk (kwI k.tag) = true := by cases k <;> decide
+    have hd := chain_iE d hfd rest h
+    have htail : Chain ([.sp, kwI "of", .sp] ++ iE d) rest = true := by
+      simp only [List.cons_append, List.nil_append, chain_sp]
+      rw [chain_cons_sp _ _ _ (by decide), hd]
+    have hsp : ∀ Y : List Item, SafeHd (render (.sp :: Y) ++ rest) := fun Y => ⟨' ', render Y ++ rest, rfl, safe_sp⟩
+    cases hz : isZero b with
+    | true =>
+      simp only [iE, hz, if_true, List.nil_append, List.cons_append]
+      rw [chain_cons_sp _ _ _ hk, chain_append, chain_iE a hfa _ (hsp _), Bool.true_and]
+      exact htail
+    | false =>
+      simp only [iE, hz, Bool.false_eq_true, if_false, List.nil_append, List.cons_append, List.append_assoc]
+      rw [chain_cons_sp _ _ _ hk, chain_append, chain_iE a hfa _ (hsp _), Bool.true_and, chain_sp, chain_cons_sp _ _ _ (by decide),
+        chain_append, chain_iE b hfb _ (hsp _), Bool.true_and]
+      exact htail
 theorem chain_iArgs : ∀ (as : List Expr), FragL as = true → ∀ (rest : List Char), SafeHd rest → Chain (iArgs as) rest = true
   | [], _, _, _ => rfl
   | [e], hf, rest, h => by
@@ -677,12 +757,13 @@ theorem mE_not_lp (e : Expr) (hf : FragE e = true) (hn : notInfix e = true) : st
   | key v => simp [mE, startsWith, S, List.isPrefixOf]
   | movie v => simp [mE, startsWith, S, List.isPrefixOf]
   | oprop v o => simp [mE, startsWith, S, List.isPrefixOf]
+  | chunk k a b d => cases k <;> simp [mE, ChunkKind.tag, startsWith, S, List.isPrefixOf]
   | the t k as =>
     cases as with
     | cons x xs =>
       cases xs with
       | cons y ys => cases t <;> simp [FragE] at hf
-      | nil => cases t <;> first | (simp [FragE, theTbl] at hf; done) | simp [mE, theTbl, startsWith, S, List.isPrefixOf]
+      | nil => obtain ⟨r, hr⟩ := mE_the_head t k [x] hf; rw [hr]; simp [startsWith, S, List.isPrefixOf]
     | nil => cases t <;> first | (simp [FragE] at hf; done) | simp [mE, startsWith, S, List.isPrefixOf]
   | _ => simp [FragE] at hf
 
